@@ -18,7 +18,7 @@ import (
 // C18 — templates are addressable by relative name; a bad file fails
 // loading cleanly.
 
-var c18Exts = []string{".tw", ".tw.html", ".html", ".t"}
+var c18Exts = []string{".tw", ".tw.html", ".html", ".t", "tw", "_view.html"}
 
 // directory spellings: (what is configured, where the files really are)
 var c18Dirs = []struct{ spelled, real string }{
